@@ -85,6 +85,7 @@ class Unknown:
 
     key: Any
     hint: str = ""
+    positive: bool = False  # known to be a number > 0 (truthy without a decision)
 
     def __repr__(self) -> str:
         return f"?{self.hint or self.key}"
